@@ -1743,6 +1743,9 @@ class Interp:
         c, v = self.as_opt(recv)
         if c is None:
             c, v = ('t', ('is_some', recv)), ('unwrap', recv)
+        else:
+            pos, neg = cond_facts(c)
+            v = prune(v, pos, neg)      # inside the closure the Option is known to be Some
         if m == 'map':
             fn = self.expr(args_nodes[0], env)
             r = self.call_value(fn, [v])
